@@ -404,6 +404,18 @@ def shard_main(ctx):
     enumerate_fixed(ctx)
     if ctx.failures:
         return
+    if ctx.shard in (2, 3, 4, 5):
+        # one call that issues more than 4096 range reads (z-slice of a 260 x 261 cube), the failing one early or in the
+        # middle of them: whatever batching the reader applies, the failure must surface
+        from .c07 import BIG_FILE
+        case = {"file": BIG_FILE, "a": {"m": "read_zslice", "u": [0.5] * 8, "b": [False] * 8, "k": [0] * 4},
+                "backend": "local" if ctx.shard % 2 == 0 else "blob", "after": [], "ranks": [], "multithreading": True,
+                "faults": [[0.12 if ctx.shard < 4 else 0.55, "short" if ctx.shard < 4 else "exception", 0.5]]}
+        try:
+            ctx.evaluate(case, run_case)
+        except Violation as v:
+            ctx.failures.append({"kind": v.kind, "detail": v.detail, "case": case})
+            return
     if not ctx.explore("undisturbed", undisturbed_cases(), run_case, ctx.n(12, 120)):
         return
     if not ctx.explore("faults3d", cases(), run_case, ctx.n(250, 3000)):
